@@ -33,9 +33,14 @@ def run(chk, build):
     ops = OPS[:15] if tier == "quick" else OPS
     maxlen = 3 if tier == "quick" else 4
     fresh = dict(clirun.parallel(baseline, ops))
-    hists = [h for n in range(1, maxlen + 1) for h in itertools.product(ops, repeat=n)]
+    hists = [h for n in range(1, min(maxlen, 3) + 1) for h in itertools.product(ops, repeat=n)]
     if tier == "quick":
         hists = [h for i, h in enumerate(hists) if len(h) < 3 or i % 3 == 0]
+    else:
+        # length 4: a seeded sample (the full product over 21 operations is 194 481 histories)
+        import random
+        rr = random.Random(chk.seed * 1000003 + 14)
+        hists += [tuple(rr.choice(ops) for _ in range(4)) for _ in range(4000)]
     oracle_failed = False
     for h, outs in clirun.parallel(run_hist, hists):
         chk.count(key=h, sample={"history": list(h)} if len(h) == 3 and len(chk.samples) < 3 else None)
@@ -53,7 +58,8 @@ def run(chk, build):
 
 def finish(chk):
     return chk.finish(level="proof", exhaustive=True,
-                      rule="every sequence of <=3 (quick: lengths 1-2 complete, half of length 3) / <=4 (thorough) calls over a pool of "
+                      rule="every sequence of <=3 calls (quick: lengths 1-2 complete, a third of length 3 over 15 operations; thorough: complete over "
+                           "21 operations plus 4000 sampled sequences of 4 calls) over a pool of "
                            "generations, renders for several frameworks / layouts on shared registries, renders that raise inside code "
                            "generation, and mutations of the default string registry; each call's output is compared with the same call "
                            "in a fresh process")
